@@ -856,7 +856,15 @@ fn partition(
     // the priorities given at the end of the argument list, therefore we're applying
     // them in reversed order.
     let mut sort_errors = Vec::new();
-    for priority in config.priority.iter().rev() {
+    // `top` and `bottom` order the files totally, so priorities listed after them can never
+    // break a tie. They must not be applied at all, because `top` is implemented as a reversal
+    // of the current order, which is only correct when it is the first sort to be applied.
+    let significant = config
+        .priority
+        .iter()
+        .position(|p| matches!(p, Priority::Top | Priority::Bottom))
+        .map_or(config.priority.len(), |i| i + 1);
+    for priority in config.priority[..significant].iter().rev() {
         sort_errors.extend(sort_by_priority(&mut file_sub_groups, priority));
     }
 
